@@ -109,7 +109,11 @@ def reverse_iter_lines(file_obj, blocksize=DEFAULT_BLOCKSIZE, preseek=True, enco
             yield line.decode(encoding) if encoding else line
         buff = lines[0]
     if buff:
-        yield buff.decode(encoding) if encoding else buff
+        # the start of the file was reached: whatever is left is complete lines
+        if buff[-1:] == newline_bytes:
+            yield empty_text if encoding else empty_bytes
+        for line in buff.splitlines()[::-1]:
+            yield line.decode(encoding) if encoding else line
 
 
 
